@@ -81,8 +81,8 @@ pub fn install_panic_hook() {
         // thread-local is set on the worker: keep a global log too.
         PANIC_LOG.get_or_init(|| Mutex::new(Vec::new())).lock().unwrap().push((msg, loc));
         let quiet = QUIET.with(|q| *q.borrow());
-        let on_main = std::thread::current().name() == Some("main");
-        if !quiet && on_main {
+        let on_pool = std::thread::current().name().map_or(false, |n| n.starts_with("arroy-pool"));
+        if !quiet && !on_pool {
             default(info);
         }
     }));
